@@ -440,7 +440,9 @@ pub fn spelling_slice(ctx: &mut Ctx) {
         ("-r", fam(&[&["-r"], &["--no-run-if-empty"]])),
         ("-r with -n", fam(&[&["-r", "-n", "2"], &["--no-run-if-empty", "--max-args=2"], &["-n2", "-r"]])),
         ("-P 1", fam(&[&["-n", "2"], &["-P", "1", "-n", "2"], &["-P1", "-n", "2"], &["--max-procs", "1", "-n", "2"], &["--max-procs=1", "-n", "2"]])),
-        ("-n with -L (last wins)", fam(&[&["-L", "1", "-n", "2"], &["--max-lines=1", "--max-args=2"], &["-L1", "-n2"]])),
+        ("-n with -L (last wins)", fam(&[&["-L", "1", "-n", "2"], &["--max-lines=1", "--max-args=2"], &["-L1", "-n2"], &["--max-lines", "1", "-n", "2"], &["-L", "1", "--max-args", "2"]])),
+        ("-L with -n (last wins)", fam(&[&["-n", "3", "-L", "1"], &["--max-args=3", "--max-lines=1"], &["-n3", "-L1"], &["-n", "3", "--max-lines=1"], &["--max-args", "3", "-L", "1"], &["-n", "3", "--max-lines", "1"]])),
+        ("-L with -s and -x", fam(&[&["-L", "1", "-s", "24", "-x"], &["--max-lines=1", "--max-chars=24", "--exit"], &["-x", "-s24", "-L1"]])),
     ];
     let afile: Vec<Vec<String>> = vec![vec!["-a".into(), f.clone()], vec![format!("-a{f}")], vec!["--arg-file".into(), f.clone()], vec![format!("--arg-file={f}")]];
     for input in inputs {
